@@ -1,9 +1,40 @@
-import Rs1090.Proofs.Decode.Wp
+/-
+BDS 1,8 reader: panic-freedom (C01), serialisation (C07), ranges (C08) — for every reader state.
+The register is a row of 56 one-bit flags; the generic facts are in Proofs/Decode/Bds17.lean.
+-/
+import Rs1090.Proofs.Decode.Bds17
 import Rs1090.Model.Decode.Bds18
 namespace Rs1090.Model.Bds18
-open Rs1090 Rs1090.Model
+open Rs1090 Rs1090.Model Rs1090.Model.CommbA Rs1090.Model.Gicb
 
-/-- STUB proof for the STUB reader (replaced together with the model) -/
-theorem read_noPanic : NoPanic read := by unfold read; exact noPanic_fail _
+/-- C01 -/
+theorem read_noPanic : NoPanic read := by
+  intro s
+  unfold NoPanicAt read
+  rw [wp_bind]; apply readFlags_wp; intro fs s1 _
+  wp_run
+
+/-- the 57 keys of the serialised register (`bds` + 56 flags) are pairwise distinct -/
+theorem keys_nodup : decide (((key! "bds").id :: flags.map (·.1.id)).Nodup) = true := by decide +kernel
+
+/-- none of them is a key of the C08 table -/
+theorem keys_unconstrained :
+    ((key! "bds").id :: flags.map (·.1.id)).all (fun k => (specFor k).isNone) = true := by decide +kernel
+
+/-- C07: whatever subset of the flags is set, the printed keys are distinct and every value is `true` -/
+theorem read_serGood : ∀ s, wp read (fun r _ => SerGood [] r) s := by
+  intro s
+  unfold read
+  rw [wp_bind]; apply readFlags_wp; intro fs s1 hfs
+  wp_run
+  exact flags_serGood _ _ flags fs hfs keys_nodup
+
+/-- C08 -/
+theorem read_rangeGood : ∀ s, wp read (fun r _ => RangeGood r) s := by
+  intro s
+  unfold read
+  rw [wp_bind]; apply readFlags_wp; intro fs s1 hfs
+  wp_run
+  exact flags_rangeGood _ _ flags fs hfs keys_unconstrained
 
 end Rs1090.Model.Bds18
